@@ -35,7 +35,7 @@ PLAN = {
 # random sessions in which TLC evaluates the property's state invariant after every call
 SESSION_SUITES = {"C03": ("struct4", "struct3", "struct5"), "C04": ("struct4", "struct3", "struct5"),
                   "C05": ("struct4", "struct3", "struct5"), "C06": ("struct4", "struct3", "struct5"), "C07": ("seg13", "seg3d"), "C08": ("seg13", "seg3d"), "C09": ("seg13", "seg3d"),
-                  "C20": ("struct4", "struct3", "seg13")}
+                  "C20": ("struct4", "struct3", "seg13"), "C01": ("struct4", "struct5", "seg13")}
 
 NONTRIVIAL_RULE = {
     "C01": "accepted edit from a state satisfying all state invariants, followed by undo() and redo()",
